@@ -10,7 +10,7 @@ use savefile::{Deserializer, Field, Schema, SchemaArray, SchemaEnum, SchemaPrimi
 type F = (String, D, Option<usize>);
 #[derive(Clone, Debug)]
 pub enum D {
-    U8, U32, Str9(u8), Vector(Box<D>, u8), Opt(Box<D>), Arr(usize, Box<D>),
+    U8, U32, Canary, Str9(u8), Vector(Box<D>, u8), Opt(Box<D>), Arr(usize, Box<D>),
     Struct { size: Option<usize>, al: Option<usize>, fields: Vec<F> },
     Enum { variants: Vec<(String, u8, Vec<F>)>, dsize: u8, repr: bool, size: Option<usize>, al: Option<usize> },
     Custom, ZeroSize, Boxed(Box<D>), Slice(Box<D>), Str, Ref(Box<D>), Recursion(usize), StdIoError, UninitSlice, UtcTimestamp, Undefined,
@@ -31,6 +31,7 @@ pub fn build(d: &D, strip: bool) -> Schema {
     match d {
         D::U8 => Schema::Primitive(SchemaPrimitive::schema_u8),
         D::U32 => Schema::Primitive(SchemaPrimitive::schema_u32),
+        D::Canary => Schema::Primitive(SchemaPrimitive::schema_canary1),
         D::Str9(l) => Schema::Primitive(SchemaPrimitive::schema_string(layout(if strip { 0 } else { *l }))),
         D::Vector(x, l) => Schema::Vector(Box::new(build(x, strip)), layout(if strip { 0 } else { *l })),
         D::Opt(x) => Schema::SchemaOption(Box::new(build(x, strip))),
@@ -64,6 +65,7 @@ pub fn enc(d: &D, v: u32, out: &mut Vec<u8>) {
     match d {
         D::U8 => out.extend_from_slice(&[3, 2]),
         D::U32 => out.extend_from_slice(&[3, 6]),
+        D::Canary => out.extend_from_slice(&[3, 13]),
         D::Str9(l) => { out.extend_from_slice(&[3, 9]); if v > 0 { out.push(*l); } }
         D::Vector(x, l) => { out.push(4); enc(x, v, out); if v > 0 { out.push(*l); } }
         D::Opt(x) => { out.push(7); enc(x, v, out); }
@@ -171,7 +173,7 @@ pub fn schema_codec<S: Src>(s: &mut S) {
 fn d_fields_eq(a: &[F], b: &[F]) -> bool { a.len() == b.len() && a.iter().zip(b.iter()).all(|(x, y)| d_eq(&x.1, &y.1)) }
 pub fn d_eq(a: &D, b: &D) -> bool {
     match (a, b) {
-        (D::U8, D::U8) | (D::U32, D::U32) | (D::Str9(_), D::Str9(_)) | (D::Custom, D::Custom) | (D::ZeroSize, D::ZeroSize) | (D::Str, D::Str)
+        (D::U8, D::U8) | (D::U32, D::U32) | (D::Canary, D::Canary) | (D::Str9(_), D::Str9(_)) | (D::Custom, D::Custom) | (D::ZeroSize, D::ZeroSize) | (D::Str, D::Str)
         | (D::StdIoError, D::StdIoError) | (D::UninitSlice, D::UninitSlice) | (D::UtcTimestamp, D::UtcTimestamp) => true,
         (D::Vector(x, _), D::Vector(y, _)) | (D::Opt(x), D::Opt(y)) | (D::Boxed(x), D::Boxed(y)) | (D::Slice(x), D::Slice(y)) | (D::Ref(x), D::Ref(y)) => d_eq(x, y),
         (D::Arr(n, x), D::Arr(m, y)) => n == m && d_eq(x, y),
@@ -183,7 +185,7 @@ pub fn d_eq(a: &D, b: &D) -> bool {
     }
 }
 fn small<S: Src>(s: &mut S) -> D {
-    match s.below(9) {
+    match s.below(10) {
         0 => D::U8, 1 => D::U32, 2 => D::Str9([0u8, 7][s.below(2)]),
         3 => D::Vector(Box::new(leaf_small(s)), [0u8, 2][s.below(2)]),
         4 => D::Opt(Box::new(leaf_small(s))),
@@ -194,10 +196,16 @@ fn small<S: Src>(s: &mut S) -> D {
             D::Enum { variants: (0..nv).map(|i| (["V", "W"][s.below(2)].to_string(), [i as u8, 9][s.below(2)], if i == 0 { let n = s.below(2); (0..n).map(|_| ("f".to_string(), leaf_small(s), None)).collect() } else { Vec::new() })).collect(),
                       dsize: [1u8, 2][s.below(2)], repr: s.bool(), size: None, al: None }
         }
-        _ => D::Boxed(Box::new(leaf_small(s))),
+        8 => D::Boxed(Box::new(leaf_small(s))),
+        _ => {
+            // an enum with a completely known memory layout as a struct field (and as a field of another enum's variant)
+            let inner = D::Enum { variants: vec![(["V", "W"][s.below(2)].to_string(), [0u8, 1][s.below(2)], vec![("f".to_string(), [D::U8, D::U32][s.below(2)].clone(), Some(4))])], dsize: 1, repr: true, size: Some(8), al: Some(4) };
+            if s.bool() { D::Struct { size: Some(8), al: Some(4), fields: vec![("e".to_string(), inner, Some(0))] } }
+            else { D::Enum { variants: vec![("Outer".to_string(), 0, vec![("e".to_string(), inner, Some(4))])], dsize: 1, repr: true, size: Some(12), al: Some(4) } }
+        }
     }
 }
-fn leaf_small<S: Src>(s: &mut S) -> D { match s.below(4) { 0 => D::U8, 1 => D::U32, 2 => D::Str9(0), _ => D::ZeroSize } }
+fn leaf_small<S: Src>(s: &mut S) -> D { match s.below(5) { 0 => D::U8, 1 => D::U32, 2 => D::Str9(0), 3 => D::Canary, _ => D::ZeroSize } }
 
 /// diff_schema(a, b) reports no difference exactly for wire-equal trees (both argument orders), never panics.
 pub fn diff_tree_pairs<S: Src>(s: &mut S) {
